@@ -733,6 +733,12 @@ func (e *Env) runRPC() error {
 			time.Sleep(time.Duration(step.Ms) * time.Millisecond)
 		case "session-snapshot":
 			sf := e.ReadSession()
+			// the store follows the adoption, and the adoption follows the server's rejection: on a busy machine the
+			// script can get here first. Only a salt that never arrives within the patience is a finding.
+			for deadline := time.Now().Add(e.stepPatience()); step.Salt != 0 && (!sf.Exists || sf.Salt != step.Salt) && time.Now().Before(deadline); {
+				time.Sleep(2 * time.Millisecond)
+				sf = e.ReadSession()
+			}
 			e.Srv.LogNote("session-file", nil, 0, fmt.Sprintf("exists=%v salt=%d salt_ok=%v", sf.Exists, sf.Salt, sf.SaltOK))
 		default:
 			return fmt.Errorf("unknown step op %q", step.Op)
